@@ -129,6 +129,12 @@ func (t *template) layout(ctx context.Context, w io.Writer) error {
 			// Parse the template bytes to get DOM nodes
 			templateNodes, err := parser.ParseTemplateBytes(tpl.templateBytes)
 			if err == nil {
+				// This parse is evaluated too (inside the layouts' <slot> elements): it gets
+				// its v-once ids and its component tags resolved like every other DOM
+				assignSeenAttrs(filename, templateNodes)
+				if err := t.vue.resolveComponentTags(templateNodes); err != nil {
+					return err
+				}
 				inheritedSlotScope = extractSlotsFromDOM(templateNodes)
 			}
 		}
